@@ -153,6 +153,36 @@ def replay_behaviour(ctx, beh, with_u):
     ctx.case(('prog', tuple(word)))
 
 
+def run_opstring(ctx, quick):
+    """operator strings with overlapping, non-commuting factors: <e_r| g_m ... g_1 |e_0> must be the amplitudes of Run(word)"""
+    import numqi
+    r = tlc.run('qsim/MC_OpString.tla', 'qsim/MC_OpString_%s.cfg' % ('q' if quick else 't'), dump=True, timeout=3000)
+    ctx.add_model('MC_OpString', r)
+    ipf = numqi.sim.state.inner_product_psi0_O_psi1
+    G = numqi.gate
+    mats = {'X': G.X, 'Z': G.Z, 'H': G.H, 'S': G.S, 'T': G.T, 'Swap': G.Swap}
+    for st in tlc.parse_dump(r):
+        n, word = st['n'], st['word']
+        want = zo_vec(st['psi']['v'], st['psi']['e'])
+        term = [(GENM[g['mat']] if g['op'] == 'double' else mats[g['op']],) + tuple(q - 1 for q in g['tg']) for g in reversed(word)]
+        data = dict(n=n, string=[(g['op'] + (':' + g['mat'] if g['mat'] else ''), [q - 1 for q in g['tg']]) for g in reversed(word)])
+        ctx.case(('opstring', n, repr(data['string'])))
+        try:
+            e0 = np.zeros(2 ** n, dtype=complex)
+            e0[0] = 1
+            got = np.zeros(2 ** n, dtype=complex)
+            for rr in range(2 ** n):
+                er = np.zeros(2 ** n, dtype=complex)
+                er[rr] = 1
+                out = ipf(er, e0, [term, term[:1]])
+                got[rr] = out[0]
+            if core.gt(np.abs(got - want).max(), TOL):
+                ctx.violation('C03:inner_product_psi0_O_psi1:operator-string', '<e_r| A B ... |e_0> differs from the matrix product of the embedded factors (left to right)', data)
+            ctx.traces += 1
+        except Exception as ex:
+            ctx.violation('C03:exception:inner_product_psi0_O_psi1', type(ex).__name__ + ': ' + str(ex)[:160], data)
+
+
 def run_graph(ctx, quick):
     """graph-state circuits: every simple graph on <= 4 (5) vertices; exact amplitudes and stabilizer circuits"""
     import numqi
@@ -196,6 +226,7 @@ def run(ctx):
     ctx.add_model('MC_Embed(n<=%d)' % (3 if quick else 4), r)
     ctx.traces += replay_routing(ctx, list(tlc.parse_dump(r)))
     run_graph(ctx, quick)
+    run_opstring(ctx, quick)
     for cfg, num, with_u in [('3', 60 if quick else 600, True), ('4', 40 if quick else 400, False)]:
         r = tlc.run('qsim/Sim_Circuit.tla', 'qsim/Sim_Circuit_%s.cfg' % cfg, simulate=dict(num=num, file=True), depth=9, seed=ctx.seed + 1, workers=8, timeout=3000)
         ctx.add_model('Sim_Circuit(QN=%s)' % cfg, r, exhaustive=False)
